@@ -1439,6 +1439,13 @@ def op_x_std(req):
                 return True
         return not hasattr(c, "co_code") or len(c.co_code) <= cap
     objs = [(k, o) for k, o in objs if small(o)]
+    if req.get("exc_hex") is not None and sys.version_info >= (3, 11):
+        # a native code object of NOPs carrying a given exception table (entries beyond 4096 code units need 3-byte varints)
+        nop = opcode.opmap["NOP"]
+        units = int(req["units"])
+        base = compile("pass", "<exc>", "exec")
+        objs = [("exccode", base.replace(co_code=bytes([nop, 0]) * units, co_exceptiontable=unhx(req["exc_hex"]),
+                                         co_linetable=b""))]
     fails = []
     seen_kinds = {}
     hasarg = set(getattr(opcode, "hasarg", ()))
@@ -1514,6 +1521,8 @@ def op_x_std(req):
              lambda: list(xs.get_instructions(obj, first_line=fl))),
             ("Bytecode", lambda: list(dis.Bytecode(obj, first_line=fl)), lambda: list(xs.Bytecode(obj, first_line=fl))),
         ):
+            if kind == "exccode" and what != "Bytecode":
+                continue
             try:
                 ref = rf()
             except Exception as e:
@@ -1524,6 +1533,8 @@ def op_x_std(req):
                 fails.append(["%s|%s|raised|%s" % (what, kind, type(e).__name__), "dis.%s accepts a %s, xdis.std.%s raises %s: %s" % (what, kind, what, type(e).__name__, e)])
                 continue
             compare_streams(kind, what, ref, got)
+        if kind == "exccode":
+            continue        # (a big synthetic object: only the handler marks are of interest; the iterator is quadratic)
         for what, rf, xf in (("code_info", lambda: dis.code_info(obj), lambda: xs.code_info(obj)),
                              ("dis", lambda: dis.dis(obj, file=__import__("io").StringIO()), lambda: xs.dis(obj, file=__import__("io").StringIO()))):
             try:
